@@ -1,16 +1,17 @@
 (* C03 - Each module is executed once per compilation.
-   Property theorems only; proofs live in Proofs/C03.v.
+   Property theorems only; proofs live in Proofs/C03.v.  State of /repo after fix d80c9be (urls are
+   normalized before files are locked or looked up): the execution-count clauses hold at full strength.
    `lookup` (the loader) and `content` (the files) are arbitrary; `uf_only` says the files only use
    @use and @forward (the graphs the property quantifies over).
-   PARTIAL: the clause "every user sees the same module variables" is not modelled. *)
+   PARTIAL: the clause "every user sees the same module variables" is not modelled (finding F8). *)
 From Coq Require Import String List Bool Arith NArith.
 From RV Require Import Gen.Candidates Model.Load Model.LoadRun Proofs.C03.
 Import ListNotations.
 Local Open Scope string_scope.
 Local Open Scope list_scope.
 
-(* no cache key (textual path) has its body executed twice, whatever the graph and the spellings;
-   and every executed key denotes the file recorded with it *)
+(* no cache key has its body executed twice, whatever the graph and the spellings; and every executed
+   key denotes the file recorded with it *)
 Theorem C03_once_per_key : forall lookup content,
   (forall id d, In d (content id) -> module_directive d) ->
   forall fuel root rootid s, lookup root = Some rootid ->
@@ -19,16 +20,27 @@ Theorem C03_once_per_key : forall lookup content,
 Proof. exact once_per_key. Qed.
 Print Assumptions C03_once_per_key.
 
-(* hence no FILE is executed twice, provided the executed keys are canonical: two executed keys that
-   denote the same file are the same text (true of every input once urls are canonicalised, F5's fix) *)
-Theorem C03_once_per_file_when_keys_canonical : forall lookup content,
+(* no FILE is executed twice.  The only hypothesis left is about the loader, not about the urls: it does
+   not hand out one file under two different normalized names (no aliasing through overlapping load
+   paths or links).  The former hypothesis "the executed keys are canonical" is gone: since d80c9be
+   every key is a normalized name. *)
+Theorem C03_once_per_file : forall lookup content,
   (forall id d, In d (content id) -> module_directive d) ->
-  forall fuel root rootid s, lookup root = Some rootid ->
-  run (orc_of lookup) content fuel root rootid = ROk s ->
-  (forall p q, In p (exec_keys (trace s)) -> In q (exec_keys (trace s)) -> lookup p = lookup q -> p = q) ->
-  NoDup (exec_ids (trace s)).
-Proof. exact once_per_file. Qed.
-Print Assumptions C03_once_per_file_when_keys_canonical.
+  forall fuel root rootid s,
+  (forall p q id, lookup p = Some id -> lookup q = Some id -> p = q) ->
+  lookup root = Some rootid ->
+  run (orc_of lookup) content fuel root rootid = ROk s -> NoDup (exec_ids (trace s)).
+Proof. exact once_per_file_injective. Qed.
+Print Assumptions C03_once_per_file.
+
+(* instance without any hypothesis on the loader: every in-memory @use/@forward world, every graph,
+   every spelling of the urls *)
+Theorem C03_once_every_world : forall (w : world) fuel root s,
+  (forall nb d, In nb w -> In d (snd nb) -> module_directive d) ->
+  mem root (names w) = true ->
+  run (orc_of (mem_lookup w)) (assoc_body w) fuel root root = ROk s -> NoDup (exec_ids (trace s)).
+Proof. exact once_every_world. Qed.
+Print Assumptions C03_once_every_world.
 
 (* a @use / @forward that hits the module cache executes nothing and emits nothing *)
 Theorem C03_cache_hit_not_executed : forall lookup content f unq cur k u s p id s1,
@@ -39,19 +51,12 @@ Theorem C03_cache_hit_not_executed : forall lookup content f unq cur k u s p id 
 Proof. exact cache_hit_not_executed. Qed.
 Print Assumptions C03_cache_hit_not_executed.
 
-(* F7: the full statement is false: `@use "m/lib"` and `@use "./m/lib"` execute m/lib.scss twice *)
-Theorem C03_refuted_spelling :
+(* the former F7 witness: `m/lib`, `./m/lib` and `m/../m//lib` execute m/lib.scss once *)
+Example C03_former_F7 :
   exists s, run_world w_spell MNorm "t.scss" "t.scss" = ROk s
-            /\ exec_ids (trace s) = ["m/lib.scss"; "m/lib.scss"; "t.scss"]
-            /\ out s = [1%N; 1%N].
-Proof. exact refuted_spelling. Qed.
-Print Assumptions C03_refuted_spelling.
+            /\ exec_ids (trace s) = ["m/lib.scss"; "t.scss"] /\ out s = [1%N].
+Proof. exact spelling_once. Qed.
 
-Theorem C03_statement_refuted : ~ C03_statement.
-Proof. exact statement_refuted. Qed.
-Print Assumptions C03_statement_refuted.
-
-(* the hypotheses of C03_once_per_file_when_keys_canonical are satisfiable: a diamond of modules *)
 Example C03_example :
   let w := [("t.scss", [DLoad KUse "a"; DLoad KForward "b"]); ("a.scss", [DLoad KUse "b"; DEmit 1%N]); ("b.scss", [DEmit 2%N])] in
   exists s, run_world w (MMem NoFault) "t.scss" "t.scss" = ROk s /\ out s = [1%N; 2%N]
